@@ -231,6 +231,27 @@ func init() {
 					}
 					w.Each(len(items), func(i int) { w.Item(items[i][0], items[i][1]) })
 				}, Eval: evalC09},
+			{Name: "complete-construct-units", Space: "units that are complete constructs (opener + body + EACH alternative terminator: comments closed by --> / --!> / -!>, CDATA, <% %>, <? >, <! >, complete tags with quoted and unquoted values; SQL: opener-token x middle x closer over 11 x 5 x 8 forms) repeated to {4K,16K,64K}: a scanner that probes for the wrong terminator from every construct re-reads the rest", Share: 1,
+				Run: func(w *fw.W) {
+					var items [][2]string
+					html := []string{"<!--a-->", "<!--a--!>", "<!--a-!>", "<!--a-\x00->", "<!---->", "<!-->", "<![CDATA[a]]>", "<![CDATA[]]]>", "<%a%>", "<%%>%>", "<?a>", "<?a?>", "<!a>", "<!doctype a>",
+						"<a b='c'>", "<a b=\"c\">", "<a b=`c`>", "<a b=c>", "<a b>", "</a>", "</a b=c>", "<a/>", "<a b=c/>", "&#1;", "&#x1;", "<a b='c' d=e>"}
+					for _, u := range html {
+						for _, o := range []string{"", "<a ", "<a b='", "<!--", "<a href="} {
+							items = append(items, [2]string{u, "html|" + o})
+						}
+					}
+					for _, op := range []string{"{a ", "(", "[", "'", "\"", "`", "/*", "--", "#", "@", "$a$"} {
+						for _, mid := range []string{"1", "a", "1,", "a 1,", " "} {
+							for _, cl := range []string{"", "}", ")", "]", "'", "*/", "\n", ","} {
+								for _, o := range []string{"", "1 "} {
+									items = append(items, [2]string{op + mid + cl, "sql|" + o})
+								}
+							}
+						}
+					}
+					w.Each(len(items), func(i int) { w.Item(items[i][0], items[i][1]) })
+				}, Eval: evalC09},
 			{Name: "new-literal-families", Space: "units a, a+x, x+a for every literal a the tree under test has in addition to the pinned tree and every symbol x, x all openers x {4K,16K,64K} (empty on the pinned tree)", Share: 1,
 				Run: func(w *fw.W) {
 					var items [][2]string
